@@ -25,6 +25,14 @@ open Yaclib.Strand (Exec XEv Prot Phase specPre specPost protInit ExecContract)
 /-- the premise "the executor keeps accepting work": it never Drops -/
 def NeverDrops (E : Exec) : Prop := ∀ x l x' a, E.step x l x' → E.ev l ≠ some (.drop a)
 
+/-- the same premise read over the states the executor actually reaches with protocol-honouring clients — all the proofs
+    below need, and the only reading that is true of a Strand (whose transition relation, over *all* states, contains
+    Drop steps from unreachable states): Proofs/StrandTowerNoDrop.lean -/
+def NeverDropsRun (E : Exec) : Prop :=
+  ∀ (x : E.σ) (p : Prot) (l : E.Lab) (x' : E.σ) (a : Nat), E.Run x p → E.step x l x' → E.ev l ≠ some (.drop a)
+
+theorem NeverDrops.run {E : Exec} (h : NeverDrops E) : NeverDropsRun E := fun x _ l x' a _ hs => h x l x' a hs
+
 structure XState (E : Exec) where
   m : State
   x : E.σ
@@ -155,7 +163,7 @@ structure XInv {E : Exec} (s : XState E) : Prop where
 theorem xinv_init (cfg : Cfg) (E : Exec) : XInv (xinit cfg E) := by
   constructor <;> simp [xinit, protInit]
 
-theorem xinv_step {cfg : Cfg} {E : Exec} (hc : ExecContract E) (hnd : NeverDrops E) {s s' : XState E}
+theorem xinv_step_run {cfg : Cfg} {E : Exec} (hc : ExecContract E) (hnd : NeverDropsRun E) {s s' : XState E}
     (hr : XReach cfg E s) (hi : XInv s) (hs : XStep E s s') : XInv s' := by
   have hmi := inv_reachable (xmutex_projects hr).1
   have hrun := (xmutex_projects hr).2
@@ -266,20 +274,20 @@ theorem xinv_step {cfg : Cfg} {E : Exec} (hc : ExecContract E) (hnd : NeverDrops
           have hcn : c ≠ n := by intro he; subst he; rw [hnj] at hc'; cases hc'; exact haj rfl
           exact ⟨c, by simp [upd, hcn, hc']⟩
   | low hx hev => exact ⟨hf, hj, hinj, hown⟩
-  | lowDrop hx hev => exact absurd hev (hnd _ _ _ _ hx)
+  | lowDrop hx hev => exact absurd hev (hnd _ _ _ _ _ hrun hx)
 
-theorem xinv_reach {cfg : Cfg} {E : Exec} (hc : ExecContract E) (hnd : NeverDrops E) {s : XState E}
+theorem xinv_reach_run {cfg : Cfg} {E : Exec} (hc : ExecContract E) (hnd : NeverDropsRun E) {s : XState E}
     (h : XReach cfg E s) : XInv s := by
   induction h with
   | init => exact xinv_init cfg E
-  | step hr hs ih => exact xinv_step hc hnd hr ih hs
+  | step hr hs ih => exact xinv_step_run hc hnd hr ih hs
 
 /-- **no lost wake-up over a real executor**: if `E` honours the IExecutor contract and never Drops, a state of the
     composition in which nothing can move — neither a coroutine, nor the executor — is a quiescent state of the plain
     model (so `quiescent_none_parked` applies: the mutex is free, nobody is parked, every request was granted once) -/
-theorem xmutex_quiescent {cfg : Cfg} {E : Exec} (hc : ExecContract E) (hnd : NeverDrops E) {s : XState E}
+theorem xmutex_quiescent_run {cfg : Cfg} {E : Exec} (hc : ExecContract E) (hnd : NeverDropsRun E) {s : XState E}
     (h : XReach cfg E s) (hq : ∀ s', ¬ XStep E s s') : ∀ l m', ¬ Step s.m l m' := by
-  have hi := xinv_reach hc hnd h
+  have hi := xinv_reach_run hc hnd h
   have hrun := (xmutex_projects h).2
   -- nobody is inside a job body: its `exit` would be possible
   have hnocall : ∀ a, s.p a ≠ .calling := by
@@ -300,7 +308,7 @@ theorem xmutex_quiescent {cfg : Cfg} {E : Exec} (hc : ExecContract E) (hnd : Nev
         cases e with
         | sub a => exact ⟨_, rfl, rfl⟩
         | ret a => exact ⟨_, rfl, rfl⟩
-        | drop a => exact absurd hev (hnd _ _ _ _ hx)
+        | drop a => exact absurd hev (hnd _ _ _ _ _ hrun hx)
         | call a =>
             have hp : s.p a = .pending := hc.safe hrun hx hev rfl
             obtain ⟨n, hn⟩ := hi.owner a (Or.inl hp)
@@ -331,5 +339,16 @@ theorem xmutex_quiescent {cfg : Cfg} {E : Exec} (hc : ExecContract E) (hnd : Nev
     | enter n => simp [synced, hnojob n] at hsy
     | exit n => simp [synced, hnojob n] at hsy
     | _ => simp [synced] at hsy
+
+/-! the same with the premise read over all states (the original statements) -/
+
+theorem xinv_step {cfg : Cfg} {E : Exec} (hc : ExecContract E) (hnd : NeverDrops E) {s s' : XState E}
+    (hr : XReach cfg E s) (hi : XInv s) (hs : XStep E s s') : XInv s' := xinv_step_run hc hnd.run hr hi hs
+
+theorem xinv_reach {cfg : Cfg} {E : Exec} (hc : ExecContract E) (hnd : NeverDrops E) {s : XState E}
+    (h : XReach cfg E s) : XInv s := xinv_reach_run hc hnd.run h
+
+theorem xmutex_quiescent {cfg : Cfg} {E : Exec} (hc : ExecContract E) (hnd : NeverDrops E) {s : XState E}
+    (h : XReach cfg E s) (hq : ∀ s', ¬ XStep E s s') : ∀ l m', ¬ Step s.m l m' := xmutex_quiescent_run hc hnd.run h hq
 
 end Yaclib.CoMutex
